@@ -236,7 +236,7 @@ func TestC12Node(t *testing.T) {
 			ctx, cancel := context.WithCancel(context.Background())
 			ctx, clk := clock.WithMockClock(ctx)
 			clk.Set(prev.T.Add(10 * m.EC.Period))
-			mn, hs := newNet(t, 2)
+			mn, hs := newNetUnconnected(t, 2)
 			ps, err := pubsub.NewGossipSub(ctx, hs[0], pubsub.WithEventTracer(rec))
 			if err != nil {
 				t.Fatalf("HARNESS: gossipsub: %v", err)
@@ -254,6 +254,9 @@ func TestC12Node(t *testing.T) {
 			osub, err := otopic.Subscribe()
 			if err != nil {
 				t.Fatalf("HARNESS: observer subscribe: %v", err)
+			}
+			if err := mn.ConnectAllButSelf(); err != nil {
+				t.Fatalf("HARNESS: connect: %v", err)
 			}
 			go func() {
 				for {
@@ -275,7 +278,7 @@ func TestC12Node(t *testing.T) {
 				t.Fatalf("HARNESS: node not running after Start (%s)", how)
 			}
 			// the node must know the observer's subscription before anything is published
-			deadline := time.Now().Add(10 * time.Second)
+			deadline := time.Now().Add(45 * time.Second)
 			for {
 				found := false
 				for _, p := range ps.ListPeers(rec.topic) {
